@@ -104,7 +104,8 @@ def substitute(ll_text, replace):
     dm = demangle_map(names)
     mapping = {}
     for key, stub in replace.items():
-        hits = [n for n in names if n == key or dm.get(n, '').startswith(key)]
+        plain = ('(' not in key and ':' not in key)   # plain C symbol: exact match only
+        hits = [n for n in names if n == key or (not plain and dm.get(n, '').startswith(key))]
         hits = [n for n in hits if n != stub]
         if not hits:
             raise BuildError('replace: no function matches %r' % key)
